@@ -306,8 +306,8 @@ def observe_one(desc, perm, with_asm):
                     src.append(n.get_sliver() if p[2] else n)
                 else:
                     ns = t.network_services[p[1]]
-                    # a PortMirrorService object is not accepted as a source (exact-class dispatch): use its sliver
-                    src.append(ns.get_sliver() if (p[2] or type(ns).__name__ != 'NetworkService') else ns)
+                    # a port mirror is handed out as a PortMirrorService object (routed since /repo 08ccccb)
+                    src.append(ns.get_sliver() if p[2] else ns)
             return src
     try:
         az = ResourceAuthZAttributes()
@@ -1021,7 +1021,7 @@ class Slices(Stream):
         out = []
         if os.environ.get('C11_NO_CORPUS'):      # developer aid: judge the generator alone
             return out
-        for p in sorted(glob.glob(os.path.join(VERIF, 'corpus', 'C11', '*.json'))):
+        for p in sorted(x for x in glob.glob(os.path.join(VERIF, 'corpus', 'C11', '*.json')) if not os.path.basename(x).startswith('hist_')):
             with open(p) as f:
                 d = json.load(f)
             for c in (d if isinstance(d, list) else [d]):
@@ -1254,7 +1254,7 @@ def gen_history(rng):
             ty = rng.choice(['PortMirror', 'PortMirror', 'FABNetv4Ext', 'FABNetv6Ext', 'L2Bridge'])
             f = rng.choice(ded) if (ty == 'PortMirror' and ded) else (rng.choice(fp) if fp and ty != 'PortMirror' else None)
             if f is not None:
-                labs = inslice_labels(cur)
+                labs = [x for x in inslice_labels(cur) if x]
                 sd = {'name': 'hs%d' % len(cur['svcs']), 'type': ty, 'ends': [f[0]], 'bw': rng.choice([None, 10, 25]),
                       'site': rng.choice([None, None, f[1]]),
                       'mirror': (rng.choice((labs or names) + names[:2]) if ty == 'PortMirror' else None),
@@ -1393,7 +1393,11 @@ def observe_history(desc):
         ncollect = sum(1 for s_ in desc['steps'] if s_[0] == 'collect')
         for st in desc['steps']:
             if st[0] != 'collect':
-                apply_edit(t, desc['states'][ci - 1], st)
+                try:
+                    apply_edit(t, desc['states'][ci - 1], st)
+                except Exception as e:      # the topology API refused the edit: generator artefact, not the collectors
+                    out['err'] = 'edit:' + type(e).__name__ + ':' + str(e)[:200]
+                    return out
                 continue
             cur = desc['states'][ci]
             ci += 1
@@ -1502,8 +1506,8 @@ class Histories(Stream):
 
     def oracle(self, case, o):
         if o['err']:
-            if o['err'].startswith('TopologyException') or 'build' in o['err']:
-                return None       # the edit script could not be applied (generator artefact)
+            if o['err'].startswith('edit:'):
+                return None       # the topology API refused an edit of the script (generator artefact)
             return 'history raised ' + o['err']
         if case['validate'] and o['validate'] != 'ok':
             return None
@@ -1604,29 +1608,6 @@ class C11(Check):
         'sites are set by validate())',
         'sites and names are non-empty strings; capacities are Python ints',
     ]
-
-    def refuted_witnesses(self):
-        def pm_not_dispatched():
-            """Coq: C11_dispatch_classes_refuted (PortMirrorService produced by the API, not routed). Replay on the code."""
-            from fim.authz.attribute_collector import ResourceAuthZAttributes
-            from fim.logging.log_collector import LogCollector
-            from fim.user.topology import ExperimentTopology
-            from fim.user.component import ComponentModelType
-            t = ExperimentTopology()
-            n = t.add_node(name='n1', site='RENC')
-            c = n.add_component(name='c1', model_type=ComponentModelType.SmartNIC_ConnectX_6)
-            t.add_port_mirror_service(name='pm1', from_interface_name='blah', to_interface=c.interface_list[1])
-            src = t.network_services['pm1']
-            res = []
-            for cls in (ResourceAuthZAttributes, LogCollector):
-                try:
-                    cls().collect_resource_attributes(source=src)
-                    res.append('accepted')
-                except Exception as e:
-                    res.append(type(e).__name__)
-            reset_stores()
-            return any(r != 'accepted' for r in res), {'source_class': type(src).__name__, 'outcome': res}
-        return [('C11_dispatch_classes_refuted', pm_not_dispatched)]
 
     def extra_static(self, ctx):
         """the compression dictionary of the cases files is the same list in the model and in the harness"""
